@@ -22,6 +22,14 @@ CHECKS = {
                 technique="explicit-state BFS of the real MessageManager with the control-frame alphabet, lock-step reference hub, ACK projection",
                 text="All reachable connection/subscription states under the control-heavy alphabet (all handshake variants incl. refused ones, repeated/no-op requests, MODULE_READY, CLIENT_SET_NAME, DISCONNECT, data, 0-2 loggers) are enumerated to a fixpoint; after every round the ACKNOWLEDGE frames on every connection are compared with the reference; every same-round pair runs in both service orders.",
                 note="Trusted: virtual TCP model, reference hub; <=4 modules + 2 loggers."),
+    "C07": dict(engine="MMX+SPEC", level="model_checking", ref="DESIGN.md 4/C07",
+                technique="exhaustive crash-point / departure enumeration executed on the real MessageManager in lock step with the reference hub",
+                text="Leaver position x way and moment of leaving (FIN/RST after every byte offset of outgoing frames, DISCONNECT, refusal, discovery on the read side or during a forward / ACK / logger copy / CLIENT_CLOSED / FAILED_MESSAGE delivery) x optional second leaver x every service order x both hash orders x fin_grace; every execution is compared with the reference and, independently, checked for exactly one CLIENT_CLOSED describing the leaver, immediate id+name reuse and undisturbed survivors.",
+                note="Trusted: virtual TCP model, reference hub; one or two leavers."),
+    "C14": dict(engine="MMX+SPEC", level="model_checking", ref="DESIGN.md 4/C14",
+                technique="exhaustive enumeration of readiness schedules (non-writable subsets x dead subsets x service orders) of one delivery on the real MessageManager, lock-step reference plus independent notice counting",
+                text="For each published kind every subset of recipients reported not writable, every subset dead at send time (FIN/RST, failing at the header or at the payload send), every service order and both hash orders are executed; deliveries and FAILED_MESSAGE notices are compared with the reference hub and counted independently of it; loggers must be waited for; notices about FAILED_MESSAGE / RTMA_LOG* must never appear.",
+                note="Trusted: virtual TCP model, reference hub; the count for a dead subscriber removed by a nested delivery before its turn is unspecified (accepted 0 or 1, consistently)."),
 }
 
 ALL = [f"C{i:02d}" for i in range(1, 20)]
